@@ -24,7 +24,11 @@ def verbatim(eng, st, leaf, wire_syms):
         if leaf.lin.is_const():
             return True
         syms = list(leaf.lin.t.items())
-        return len(syms) == 1 and syms[0][1] == 1 and leaf.lin.c == 0 and syms[0][0] in wire_syms
+        if len(syms) == 1 and syms[0][1] == 1 and leaf.lin.c == 0 and syms[0][0] in wire_syms:
+            return True
+        # a bit range carved out of a wider read (two u16 fields fetched as one u32) is verbatim wire data too
+        sp = layout.bitspan(eng, st, leaf.lin)
+        return sp is not None and sp[0] in wire_syms and sp[1] % 8 == 0 and sp[2] % 8 == 0
     if isinstance(leaf, VBool):
         return leaf.f[0] in ("const", "bit")
     if isinstance(leaf, VVec):
